@@ -415,11 +415,18 @@ def check_rrl_question_lemma(R, F):
         ok3 = p is None
         d3 = 'every return after `question = None` passes a non-zero RCODE, handle_query or send_response = false' if ok3 else 'a return is reachable with question == None and RCODE NOERROR: %s' % paths.fmt_path(hm, p)
     R.require(ok3, 'rrl-question', HMWC + '|no-question-implies-error-or-dispatch', hm.where(starts[0]) if starts else hm.where(), d3, d3)
+    # the TSIG error helpers settle the RCODE themselves: nothing they call afterwards (the truncation helper, ...) writes
+    # the RCODE again -- otherwise the non-zero RCODE this lemma relies on could be reset to NOERROR before the return
+    helpers = ('server::find_tsig_algorithm_or_write_error', 'server::find_tsig_key_or_write_error', 'server::verify_tsig_and_write_tsig_rr')
+    below = sorted(g for g in F.reachable_fns(list(helpers)) if g not in helpers and g in F.fns and F.fns[g].crate == 'quandary' and g.startswith(('server::', '<server::')))
+    rewrites = ['%s (%s)' % (g, F.fns[g].where(b)) for g in below for b, t in F.fns[g].calls() if callee_name(t) in (W + 'set_rcode', W + 'set_extended_rcode')]
+    R.require(not rewrites, 'rrl-question', 'server|tsig-error-rcode-is-final', '', 'no function called by the TSIG error helpers writes the RCODE (%d functions looked at)' % len(below),
+              'the RCODE written by a TSIG error helper can be overwritten by %s: a question-less request can then leave with RCODE NOERROR and panic Rrl::process_response' % rewrites)
     # validate_opt only yields non-zero codes (it feeds set_extended_rcode)
     vo = F.fn('server::validate_opt')
     codes = sorted({m.group(1) for blk in vo.blocks for st in blk['stmts'] if st['k'] == 'assign' and st['rv']['k'] == 'agg' and st['rv']['def'].endswith('Option::Some') for m in [re.search(r'ExtendedRcode\((\d+)_u16\)', paths.show_operand(vo, st['rv']['ops'][0]))] if m})
     R.require(bool(codes) and '0' not in codes, 'rrl-question', 'server::validate_opt|only-error-codes', vo.where(), 'validate_opt yields only non-zero extended RCODEs %s' % codes, 'validate_opt can yield extended RCODE 0')
-    R.floor('rrl-question', 3)
+    R.floor('rrl-question', 4)
 
 
 def check(R, F):
